@@ -194,10 +194,13 @@ impl SwiftField for Field58 {
                 let field = Field58D::parse(value)?;
                 Ok(Field58::D(field))
             }
-            _ => {
-                // No variant specified, fall back to default parse behavior
+            None => {
+                // No option letter given: the option is inferred from the content
                 Self::parse(value)
             }
+            Some(other) => Err(ParseError::InvalidFormat {
+                message: format!("Field 58 has no option {}", other),
+            }),
         }
     }
 
